@@ -12,9 +12,11 @@
                                  anonymous zero memory private to the Chunk object
    Not modelled: page alignment of mmap, msync, paths, descriptors, priorities/wanted_chunks.
 
-   A store is one byte list per file = the file's current content on disk (FileList::open with
+   A store is one file image per file = the file's current content on disk (FileList::open with
    flag_create_queued creates every non-padding file empty; the first prepare() with write
-   permission ftruncates it to its size: flag_resize_queued).                                    *)
+   permission ftruncates it to its size: flag_resize_queued). A file image is SPARSE (current
+   length + the cells written so far, everything else reads 0), so that files above 4 GiB, whose
+   offsets do not fit 32 bits, are ordinary inputs of the model.                                 *)
 From Coq Require Import List NArith Bool.
 Import ListNotations.
 Local Open Scope N_scope.
@@ -68,13 +70,40 @@ Definition is_valid_piece (c : cfg) (idx off len : N) : bool :=
 
 (* ------------------------------------------------------------------ store *)
 
-Record state := mkState { s_store : list bytes; s_done : list bool; s_fcomp : list N }.
-
 Fixpoint zeros (n : nat) : bytes := match n with O => [] | S k => 0 :: zeros k end.
 
-(* ftruncate: cut or zero-extend *)
-Definition resize (l : bytes) (n : N) : bytes :=
-  firstn (N.to_nat n) l ++ zeros (N.to_nat n - length l).
+Fixpoint nseq (start : N) (n : nat) : list N :=
+  match n with O => [] | S k => start :: nseq (start + 1) k end.
+
+(* sparse file image: fi_len = st_size; the first cell with a given offset wins *)
+Record fimg := mkImg { fi_len : N; fi_cells : list (N * N) }.
+
+Definition fempty : fimg := mkImg 0 [].
+
+Fixpoint lookup (o : N) (cells : list (N * N)) : option N :=
+  match cells with
+  | [] => None
+  | (k, b) :: r => if k =? o then Some b else lookup o r
+  end.
+
+(* byte o of the file as pread would return it; 0 beyond the end *)
+Definition f_raw (im : fimg) (o : N) : N :=
+  if o <? fi_len im then match lookup o (fi_cells im) with Some b => b | None => 0 end else 0.
+
+(* ftruncate: cut, or extend with zeros (cells at or beyond the old or new end are dropped) *)
+Definition f_resize (im : fimg) (n : N) : fimg :=
+  mkImg n (filter (fun kb => fst kb <? N.min n (fi_len im)) (fi_cells im)).
+
+Fixpoint zipcells (o : N) (d : bytes) : list (N * N) :=
+  match d with [] => [] | b :: r => (o, b) :: zipcells (o + 1) r end.
+
+(* memcpy of d into the mapped file at offset o (o + |d| <= fi_len where it is used) *)
+Definition f_splice (im : fimg) (o : N) (d : bytes) : fimg :=
+  mkImg (fi_len im) (zipcells o d ++ fi_cells im).
+
+Definition f_slice (im : fimg) (o k : N) : bytes := map (f_raw im) (nseq o (N.to_nat k)).
+
+Record state := mkState { s_store : list fimg; s_done : list bool; s_fcomp : list N }.
 
 Fixpoint upd {A} (l : list A) (i : nat) (x : A) : list A :=
   match l, i with
@@ -83,14 +112,14 @@ Fixpoint upd {A} (l : list A) (i : nat) (x : A) : list A :=
   | y :: r, S j => y :: upd r j x
   end.
 
-(* memcpy of d into l at offset o (o + |d| <= |l| where it is used) *)
+(* chunk-private memory (padding parts): memcpy of d into l at offset o *)
 Definition splice (l : bytes) (o : N) (d : bytes) : bytes :=
   firstn (N.to_nat o) l ++ d ++ skipn (N.to_nat o + length d) l.
 
 Definition slice (l : bytes) (o k : N) : bytes := firstn (N.to_nat k) (skipn (N.to_nat o) l).
 
 Definition init_state (c : cfg) : state :=
-  mkState (map (fun _ => []) (c_files c))
+  mkState (map (fun _ => fempty) (c_files c))
           (repeat false (N.to_nat (size_chunks c)))
           (map (fun _ => 0) (c_files c)).
 
@@ -100,13 +129,13 @@ Record part := mkPart { p_pos : N; p_size : N; p_file : nat; p_foff : N; p_pad :
 
 Inductive cres :=
 | CErr                                            (* internal_error *)
-| CNull (st : list bytes)                         (* nullptr *)
-| COk (st : list bytes) (ps : list part).
+| CNull (st : list fimg)                          (* nullptr *)
+| COk (st : list fimg) (ps : list part).
 
 (* the for loop of FileList::create_chunk together with create_chunk_part.
    fs = files from itr on, i = index of the head of fs, cpos = Chunk::m_chunkSize so far.
    [off - f_off f] is truncated subtraction; Proofs shows f_off f <= off on every path. *)
-Fixpoint cc_walk (fs : list file) (i : nat) (store : list bytes) (off len : N) (w : bool)
+Fixpoint cc_walk (fs : list file) (i : nat) (store : list fimg) (off len : N) (w : bool)
          (cpos : N) (acc : list part) : cres :=
   if len =? 0 then COk store (rev acc)
   else match fs with
@@ -120,8 +149,8 @@ Fixpoint cc_walk (fs : list file) (i : nat) (store : list bytes) (off len : N) (
           cc_walk fs' (S i) store (off + l) (len - l) w (cpos + l) (mkPart cpos l i o true :: acc)
         else
           (* File::prepare: first writable request resizes the file (flag_resize_queued) *)
-          let store1 := if w then upd store i (resize (nth i store []) (f_size f)) else store in
-          let cur := N.of_nat (length (nth i store1 [])) in
+          let store1 := if w then upd store i (f_resize (nth i store fempty) (f_size f)) else store in
+          let cur := fi_len (nth i store1 fempty) in
           (* SocketFile::create_chunk validity test *)
           if (l =? 0) || (cur <? o) || (cur <? o + l) then CNull store1
           else cc_walk fs' (S i) store1 (off + l) (len - l) w (cpos + l)
@@ -137,7 +166,7 @@ Fixpoint find_start (fs : list file) (i : nat) (off : N) : list file * nat :=
       else find_start fs' (S i) off
   end.
 
-Definition create_chunk (c : cfg) (store : list bytes) (off len : N) (w : bool) : cres :=
+Definition create_chunk (c : cfg) (store : list fimg) (off len : N) (w : bool) : cres :=
   if c_tot c <? off + len then CErr
   else
     let st := find_start (c_files c) O off in
@@ -174,8 +203,8 @@ Fixpoint segs (ps : list part) (first last : N) : list (part * N * N) :=
 
 (* memory of a Chunk: file parts alias the store (MAP_SHARED), padding parts are anonymous
    memory private to the chunk, kept here as one buffer [cm] indexed by chunk position *)
-Fixpoint write_segs (sg : list (part * N * N)) (data : bytes) (store : list bytes) (cm : bytes)
-  : list bytes * bytes :=
+Fixpoint write_segs (sg : list (part * N * N)) (data : bytes) (store : list fimg) (cm : bytes)
+  : list fimg * bytes :=
   match sg with
   | [] => (store, cm)
   | (p, o, k) :: r =>
@@ -183,15 +212,15 @@ Fixpoint write_segs (sg : list (part * N * N)) (data : bytes) (store : list byte
       let rest := skipn (N.to_nat k) data in
       if p_pad p then write_segs r rest store (splice cm (p_pos p + o) d)
       else write_segs r rest
-             (upd store (p_file p) (splice (nth (p_file p) store []) (p_foff p + o) d)) cm
+             (upd store (p_file p) (f_splice (nth (p_file p) store fempty) (p_foff p + o) d)) cm
   end.
 
-Fixpoint read_segs (sg : list (part * N * N)) (store : list bytes) (cm : bytes) : bytes :=
+Fixpoint read_segs (sg : list (part * N * N)) (store : list fimg) (cm : bytes) : bytes :=
   match sg with
   | [] => []
   | (p, o, k) :: r =>
       (if p_pad p then slice cm (p_pos p + o) k
-       else slice (nth (p_file p) store []) (p_foff p + o) k) ++ read_segs r store cm
+       else f_slice (nth (p_file p) store fempty) (p_foff p + o) k) ++ read_segs r store cm
   end.
 
 (* common prologue of to_buffer / from_buffer / compare_buffer:
@@ -225,6 +254,48 @@ Fixpoint inc_completed (fs : list file) (fc : list N) (idx : N) : option (list N
   | _, _ => None
   end.
 
+(* the same, from an iterator position on (the suffixes fs/fc), also giving the offset of the
+   returned lastItr from the head of the suffix (= length of the suffix for end()) *)
+Fixpoint inc_phase_pos (fs : list file) (fc : list N) (idx : N) : list N * nat :=
+  match fs, fc with
+  | f :: fs', x :: fc' =>
+      if u32 (idx + 1) <? f_r2 f then ((x + 1) :: fc', O)
+      else let r := inc_phase_pos fs' fc' idx in ((x + 1) :: fst r, S (snd r))
+  | _, _ => (fc, O)
+  end.
+
+Fixpoint inc_completed_pos (fs : list file) (fc : list N) (idx : N) : option (list N * nat) :=
+  match fs, fc with
+  | f :: fs', x :: fc' =>
+      if idx <? f_r2 f then Some (inc_phase_pos fs fc idx)
+      else option_map (fun r => (x :: fst r, S (snd r))) (inc_completed_pos fs' fc' idx)
+  | _, _ => None
+  end.
+
+(* the for loop of FileList::update_completed: entryItr = inc_completed(entryItr, index) for every
+   set bit; k = position of entryItr; false = internal_error (counters stay as far as they got) *)
+Fixpoint upd_loop (fs : list file) (fc : list N) (k : nat) (idx : N) (done : list bool)
+  : list N * bool :=
+  match done with
+  | [] => (fc, true)
+  | b :: r =>
+      if b then
+        match inc_completed_pos (skipn k fs) (skipn k fc) idx with
+        | None => (fc, false)
+        | Some (fc2, d) => upd_loop fs (firstn k fc ++ fc2) (k + d) (idx + 1) r
+        end
+      else upd_loop fs fc k (idx + 1) r
+  end.
+
+(* FileList::update_completed: all set -> File::size_chunks() each; otherwise reset to 0 and
+   recount from the bitfield. The old counters only give the length. *)
+Definition update_completed (c : cfg) (done : list bool) (fc : list N) : list N * bool :=
+  if count_true done =? size_chunks c then
+    (map (fun f => f_r2 f - f_r1 f) (firstn (length fc) (c_files c)), true)
+  else
+    let z := map (fun _ => 0) fc in
+    if count_true done =? 0 then (z, true) else upd_loop (c_files c) z O 0 done.
+
 (* FileList::completed_bytes with an allocated bitfield; None = internal_error *)
 Definition completed_bytes (c : cfg) (done : list bool) : option N :=
   let cc := count_true done in
@@ -251,7 +322,11 @@ Inductive op :=
 | OpMark (idx : N)
 | OpValid (idx off len : N)
 | OpQuery
-| OpDump.
+| OpDump
+| OpReopen                       (* close; open; bitfield allocate + unset_all; update_completed *)
+| OpSetBit (idx : N)             (* Bitfield::set(idx) only (resume / hash-check bookkeeping) *)
+| OpUpdate                       (* FileList::update_completed *)
+| OpPread (i : nat) (off len : N).  (* plain pread of file i *)
 
 Inductive wres := WSkip | WErr | WOk.
 
@@ -263,7 +338,10 @@ Inductive out :=
 | OutValid (b : bool)
 | OutQuery (nchunks : N) (sizes : list N) (files : list (file * N)) (cc : N)
            (cb : option N) (left : option N)
-| OutDump (imgs : list (option bytes)).       (* None = padding entry: no file *)
+| OutDump (imgs : list (option bytes))        (* None = padding entry: no file *)
+| OutUpd (ok : bool)
+| OutSet (ok : bool)
+| OutPread (size : option N) (bs : bytes).    (* None = no such file (padding / index) *)
 
 Fixpoint beq_bytes (a b : bytes) : bool :=
   match a, b with
@@ -301,8 +379,7 @@ Fixpoint set_nth (l : list bool) (i : nat) : list bool :=
   | b :: r, S j => b :: set_nth r j
   end.
 
-Fixpoint nseq (start : N) (n : nat) : list N :=
-  match n with O => [] | S k => start :: nseq (start + 1) k end.
+Definition f_dump (im : fimg) : bytes := f_slice im 0 (fi_len im).
 
 Definition step (c : cfg) (s : state) (o : op) : state * out :=
   match o with
@@ -327,8 +404,27 @@ Definition step (c : cfg) (s : state) (o : op) : state * out :=
                    (count_true (s_done s))
                    (completed_bytes c (s_done s)) (left_bytes c (s_done s)))
   | OpDump =>
-      (s, OutDump (map (fun fb => if f_pad (fst fb) then None else Some (snd fb))
+      (s, OutDump (map (fun fb => if f_pad (fst fb) then None else Some (f_dump (snd fb)))
                        (combine (c_files c) (s_store s))))
+  | OpReopen =>
+      let done' := repeat false (N.to_nat (size_chunks c)) in
+      let r := update_completed c done' (s_fcomp s) in
+      (mkState (s_store s) done' (fst r), OutUpd (snd r))
+  | OpSetBit idx =>
+      if idx <? size_chunks c
+      then (mkState (s_store s) (set_nth (s_done s) (N.to_nat idx)) (s_fcomp s), OutSet true)
+      else (s, OutSet false)
+  | OpUpdate =>
+      let r := update_completed c (s_done s) (s_fcomp s) in
+      (mkState (s_store s) (s_done s) (fst r), OutUpd (snd r))
+  | OpPread i off len =>
+      match nth_error (c_files c) i with
+      | Some f =>
+          if f_pad f then (s, OutPread None [])
+          else let im := nth i (s_store s) fempty in
+               (s, OutPread (Some (fi_len im)) (f_slice im off (N.min len (fi_len im - off))))
+      | None => (s, OutPread None [])
+      end
   end.
 
 Fixpoint run (c : cfg) (s : state) (ops : list op) : state * list out :=
